@@ -24,6 +24,8 @@ C06Checks(e) ==
   IN IF e.p # 0 THEN Chk("C06.year.panic", y, FALSE)
      ELSE
        Chk("C06.table.shape", y, Len(T) = 15 /\ \A i \in 1..Len(e.t) : e.t[i][6] = 0)
+       \* the table read again after the leap-month / day-count / month-list / single-month accessors: they report, they do not edit
+       + Chk("C06.table.unchanged-by-accessors", y, e.t2 = e.t)
        + (IF ~scoped THEN 0 ELSE
             Chk("C06.months.contiguous", y, Contiguous(T))
             + Chk("C06.months.length29or30", y, Lengths2930(T))
